@@ -89,17 +89,661 @@ RESERVED5A = set("KeyPath".split())
 
 # ----------------------------------------------------------------------------- parser
 
+FN_BYTES_BOOL = ("fnbb",)      # `impl Fn(&[u8]) -> bool`: a Lean function `Bytes → Bool` (total, no side effect)
+
+
 class Parser5(Parser4):
-    pass
+    def parse_type(self):
+        if self.isid("impl") and self.isid("Fn", 1) and self.isp("(", 2):
+            self.next(); self.next(); self.next()
+            args = []
+            while not self.isp(")"):
+                args.append(norm4(self.parse_type()))
+                if not self.eatp(","):
+                    break
+            self.expectp(")")
+            ret = ("unit",)
+            if self.eatp("->"):
+                ret = norm4(self.parse_type())
+            if len(args) == 1 and is_bytes(args[0]) and ret == ("bool",):
+                return FN_BYTES_BOOL
+            raise Unsupported("closure parameter type not in the subset (only `impl Fn(&[u8]) -> bool`)")
+        return Parser4.parse_type(self)
+
+
+# ----------------------------------------------------------------------------- types
+
+def size_align5(t, world):
+    """rs2lean4.size_align4 plus `Vec<T>` (pointer, capacity, length) as an element type"""
+    if t[0] == "vec":
+        return 24, 8
+    if t[0] == "tuple":
+        parts = [size_align5(x, world) for x in t[1]]
+        al = max(a for _, a in parts)
+        if any(sz % a for sz, a in parts):
+            raise Unsupported("size of `%s`" % tystr4(t))
+        total = sum(sz for sz, _ in parts)
+        return (total + al - 1) // al * al, al
+    return R4.size_align4(t, world)
+
+
+def lean_type5(t, world):
+    k = t[0]
+    if t == FN_BYTES_BOOL:
+        return "(Bytes → Bool)"
+    if k in ("vec", "slice", "array", "deque") and not is_bytes(t):
+        return "(List %s)" % lean_type5(t[1], world)
+    if k == "opt":
+        return "(Option %s)" % lean_type5(t[1], world)
+    if k == "tuple":
+        return "(" + " × ".join(lean_type5(x, world) for x in t[1]) + ")"
+    return lean_type4(t, world)
 
 
 # ----------------------------------------------------------------------------- function translator
 
+def always_returns(e):
+    """every path through the statement / block `e` ends with `return <expr>` (syntactic)"""
+    if e is None:
+        return False
+    k = e.kind
+    if k == "paren":
+        return always_returns(e.e)
+    if k == "return":
+        return e.e is not None
+    if k == "block":
+        if e.tail is not None:
+            return always_returns(e.tail)
+        if not e.stmts:
+            return False
+        s = e.stmts[-1]
+        return s.kind == "expr" and always_returns(s.e)
+    if k == "match":
+        return bool(e.arms) and all(always_returns(a.body) for a in e.arms)
+    if k == "if":
+        return e.els is not None and always_returns(e.then) and always_returns(e.els)
+    if k == "iflet":
+        return e.els is not None and always_returns(e.then) and always_returns(e.els)
+    return False
+
+
 class FnTr5(FnTr4):
     def __init__(self, world, file, impl, trait, name, it, lean, lit_choice=None, group=None, holes=None):
-        self.text_callees = []          # sniffing functions called here, in order of first call: (name, sig, arg names)
+        self.uses_fmt = False           # `format!("{}", <Number>)`: the text of an f64 is the parameter `fmt__`
+        self.texts = []                 # text parameters of this function: dicts pname / leanty / args (own parameter names)
         FnTr4.__init__(self, world, file, impl, trait, name, it, lean, lit_choice, group, holes)
         self.body_parser = Parser5(self.body_parser.t, self.body_parser.i)
+
+    # -- signature: generic `I: Iterator<Item = T>` parameters are lists of `T` (consumed by one `for`),
+    # `impl Fn(&[u8]) -> bool` parameters are Lean functions
+    def parse_sig(self, it):
+        toks = list(it["toks"])
+        self.iter_params = set()
+        self.for_header_ok = None
+        iters = {}
+        p = Parser5(toks)
+        if p.isp("<"):
+            # the generic parameter list, `>>` split into its two closers (only inside that list)
+            flat, depth, end = [], 0, None
+            for k, t in enumerate(toks):
+                if end is not None:
+                    flat.append(t)
+                    continue
+                parts = [Tok("p", ">", t.pos), Tok("p", ">", t.pos)] if (t.k == "p" and t.v == ">>") else [t]
+                for x in parts:
+                    flat.append(x)
+                    if x.k == "p" and x.v == "<":
+                        depth += 1
+                    elif x.k == "p" and x.v == ">":
+                        depth -= 1
+                        if depth == 0 and end is None:
+                            end = len(flat) - 1
+                if t.k == "p" and t.v == "(" and depth == 0:
+                    break
+            if end is None:
+                raise Unsupported("parse: unbalanced <>")
+            inner = flat[1:end]
+            toks = flat
+            p = Parser5(toks, end + 1)
+            q = Parser5(inner + [Tok("eof", None, 0)])
+            keep = []
+            while q.peek().k != "eof":
+                if q.peek().k == "life":
+                    keep.append(q.next())
+                    if q.isp(":"):
+                        raise Unsupported("lifetime bounds not in the subset")
+                elif q.peek().k == "id":
+                    g = q.ident()
+                    if not (q.eatp(":") and q.eatid("Iterator") and q.eatp("<") and q.eatid("Item") and q.eatp("=")):
+                        raise Unsupported("generic parameters not in the subset")
+                    start = q.i
+                    q.parse_type()
+                    iters[g] = q.t[start:q.i]
+                    if not q.eatp(">"):
+                        raise Unsupported("generic parameters not in the subset")
+                else:
+                    raise Unsupported("generic parameter list not in the subset")
+                if not q.eatp(","):
+                    break
+            if q.peek().k != "eof":
+                raise Unsupported("generic parameters not in the subset")
+            rest = toks[p.i:]
+            # the parameter list with `Vec<T>` for every `I`
+            out, depth, k = [], 0, 0
+            while k < len(rest):
+                t = rest[k]
+                if t.k == "p" and t.v == "(":
+                    depth += 1
+                elif t.k == "p" and t.v == ")":
+                    depth -= 1
+                    if depth == 0:
+                        out += rest[k:]
+                        break
+                if depth == 1 and t.k == "id" and t.v in iters and k > 0 and rest[k - 1].k == "p" and rest[k - 1].v == ":":
+                    out += [Tok("id", "Vec", t.pos), Tok("p", "<", t.pos)] + list(iters[t.v]) + [Tok("p", ">", t.pos)]
+                    self.iter_params.add(rest[k - 2].v)
+                else:
+                    out.append(t)
+                k += 1
+            lt_toks = []
+            if keep:
+                lt_toks = [Tok("p", "<", 0)]
+                for j, x in enumerate(keep):
+                    lt_toks += ([Tok("p", ",", 0)] if j else []) + [x]
+                lt_toks.append(Tok("p", ">", 0))
+            toks = lt_toks + out
+        # `impl Fn(..) -> ..` parameter types are not known to the earlier parsers: read them here
+        p = Parser5(list(toks))
+        if p.isp("<"):
+            p.skip_generics()
+        p.expectp("(")
+        # replace `impl Fn(&[u8]) -> bool` by the marker type `FnBytesBool__`
+        k = p.i
+        t_ = p.t
+        out = list(t_[:k])
+        while k < len(t_):
+            t = t_[k]
+            if t.k == "id" and t.v == "impl" and t_[k + 1].k == "id" and t_[k + 1].v == "Fn":
+                q = Parser5(t_, k)
+                ty = q.parse_type()
+                out.append(Tok("id", "FnBytesBool__", t.pos))
+                k = q.i
+                continue
+            out.append(t)
+            k += 1
+        FnTr4.parse_sig(self, dict(it, toks=out))
+
+    def resolve(self, t):
+        if t == ("named", "FnBytesBool__") or t == FN_BYTES_BOOL:
+            return FN_BYTES_BOOL
+        return FnTr4.resolve(self, t)
+
+    def lt(self, t):
+        return lean_type5(t, self.w)
+
+    def concrete(self, t):
+        if t == FN_BYTES_BOOL:
+            return True
+        return FnTr4.concrete(self, t)
+
+    # -- the sniffing prologue `if !is_jsonb(value) { <text branch: every path returns> }`
+    def split_text_branch(self, body):
+        if self.name not in TEXT5A:
+            return FnTr4.split_text_branch(self, body)
+        if not body.stmts:
+            raise Unsupported("expected the `if !is_jsonb(value) { <text branch> }` prologue")
+        s0 = body.stmts[0]
+        e = s0.e if s0.kind == "expr" else None
+        ok = e is not None and e.kind == "if" and e.els is None and self.is_plain_sniff(e.cond) and always_returns(e.then)
+        if not ok:
+            raise Unsupported("expected the `if !is_jsonb(<parameter>) { …; return …; }` prologue")
+        self.text_param = "text__"
+        new_then = N("block", stmts=[], tail=N("return", e=N("path", segs=["text__"])))
+        s0 = N("expr", e=N("if", cond=e.cond, then=new_then, els=None), semi=False)
+        return N("block", stmts=[s0] + body.stmts[1:], tail=body.tail)
+
+    def is_plain_sniff(self, c):
+        """`!is_jsonb(p)` for a parameter `p` of this function"""
+        while c.kind == "paren":
+            c = c.e
+        if not (c.kind == "un" and c.op == "!" and c.e.kind == "call" and c.e.f.kind == "path"
+                and c.e.f.segs == ["is_jsonb"] and len(c.e.args) == 1):
+            return False
+        a = strip(c.e.args[0])
+        return a.kind == "path" and len(a.segs) == 1 and a.segs[0] in [n for n, _ in self.params] \
+            and a.segs[0] not in self.mutparams
+
+    peeking = False
+
+    def peek_type(self, e):
+        save, self.peeking = self.peeking, True
+        save_ok = self.for_header_ok
+        try:
+            return FnTr4.peek_type(self, e)
+        finally:
+            self.peeking = save
+            self.for_header_ok = save_ok
+
+    def own_param(self, x):
+        """`x` names a parameter of this function that is never assigned and is not shadowed here"""
+        if x not in [n for n, _ in self.params] or x in self.mutparams:
+            return False
+        for s in reversed(self.scopes):
+            if x in s:
+                return s is self.scopes[0]
+        return False
+
+    def add_text(self, pname, leanty, args):
+        for t in self.texts:
+            if t["pname"] == pname:
+                if t["args"] != args or t["leanty"] != leanty:
+                    raise Unsupported("two calls of a sniffing function with different arguments")
+                return
+        self.texts.append(dict(pname=pname, leanty=leanty, args=list(args)))
+
+    def user_call(self, sig, args, recv=None):
+        texts = sig.get("texts")
+        if not texts:
+            return FnTr4.user_call(self, sig, args, recv)
+        if recv is not None or sig.get("mut") or sig.get("writer"):
+            raise Unsupported("call of the sniffing function %s in this shape" % sig["lean"])
+        params = sig["params"]
+        if len(args) != len(params):
+            raise Unsupported("arity of call to %s" % sig["lean"])
+        # the text results handed on are those of the callee on this function's own parameters
+        actual = {}
+        for ae, (pn, _) in zip(args, params):
+            a = strip(ae)
+            actual[pn] = a.segs[0] if (a.kind == "path" and len(a.segs) == 1 and self.own_param(a.segs[0])) else None
+        extra = []
+        for t in texts:
+            mine = [actual.get(a) for a in t["args"]]
+            if any(m is None for m in mine):
+                raise Unsupported("call of the sniffing function %s with an argument that is not a parameter of the caller" % sig["lean"])
+            pname = ("%s_text__" % sig["name"]) if t["pname"] == "text__" else t["pname"]
+            self.add_text(pname, t["leanty"], mine)
+            extra.append(pname)
+        ls, terms = [], []
+        for ae, (_, pt) in zip(args, params):
+            l1, t1, _ = self.ex(ae, pt)
+            ls += l1
+            terms.append(self.atom(t1))
+        head = sig["lean"]
+        if sig.get("fuel"):
+            self.uses_fuel = True
+            head += " fuel"
+        if sig.get("fmt"):
+            self.uses_fmt = True
+            head += " fmt__"
+        call = " ".join([head] + terms + extra)
+        ret = sig["ret"]
+        if ret[0] == "res":
+            return ls, "(%s)" % call, ret
+        ls, r = self.call_res(ls, call)
+        return ls, r, ret
+
+    # -- `opt.map(|pat| body)`: `match opt { Some(pat) => Some(body), None => None }`
+    def desugar(self, e):
+        if e is not None and e.kind == "mcall" and e.name == "map" and len(e.args) == 1 and e.args[0].kind == "closure" \
+                and len(e.args[0].params) == 1:
+            rty = self.peek_type(e.recv)
+            if rty is not None and rty[0] == "opt":
+                c = e.args[0]
+                some = N("call", f=N("path", segs=["Some"]), args=[c.body])
+                return N("match", scrut=e.recv, arms=[
+                    N("arm", pat=N("p_ctor", path=["Some"], args=[c.params[0]]), guard=None, body=some),
+                    N("arm", pat=N("p_path", path=["None"]), guard=None, body=N("path", segs=["None"]))])
+        return e
+
+    def ex0(self, e, want):
+        e2 = self.desugar(e)
+        if e2 is not e:
+            return self.ex(e2, want)
+        k = e.kind
+        if k == "lit_other" and e.what == "float":
+            # an integer literal with an `f64` suffix (`1_f64`): the value of `1 as f64`
+            m = re.fullmatch(r"([0-9][0-9_]*?)_?f64", e.text)
+            if not m:
+                raise Unsupported("float literal `%s` not in the subset (only `<integer>_f64`)" % e.text)
+            return [], "(Rs.intAsF64 (%d : Int))" % int(m.group(1).replace("_", "")), ("f64",)
+        if k == "macro" and e.name == "format":
+            toks = list(e.toks)
+            if len(toks) >= 3 and toks[0].k == "str" and toks[0].v == "{}" and toks[1].k == "p" and toks[1].v == ",":
+                q = Parser5(toks[2:] + [Tok("eof", None, 0)])
+                arg = q.parse_expr()
+                q.eatp(",")
+                if q.peek().k != "eof":
+                    raise Unsupported("format! arguments")
+                ls, t, ty = self.ex(arg)
+                if ty != ("named", "Number"):
+                    raise Unsupported("format!(\"{}\", ..) of %s (only a `Number`)" % tystr4(ty))
+                self.uses_fmt = True
+                return ls, "(Rs.displayNumber fmt__ %s)" % self.atom(t), STR
+        if k == "macro" and e.name == "unreachable":
+            toks = list(e.toks)
+            if len(toks) == 1 and toks[0].k == "str":
+                msg = "internal error: entered unreachable code: " + R2.rust_str_bytes(toks[0].v).decode("utf-8")
+            elif not toks:
+                msg = "internal error: entered unreachable code"
+            else:
+                raise Unsupported("unreachable! with format arguments")
+            return ["Ctl.ret (.panic %s)" % R2.lean_str_lit(msg.encode("utf-8"))], "()", ("never",)
+        if k == "res_val_opt":
+            # the scrutinee of `if let Ok(p) = <Result value>`: the error value is dropped
+            ls, t, ty = self.ex(e.e)
+            if ty is None or ty[0] != "res":
+                raise Unsupported("`if let Ok(..)` on %s" % tystr4(ty))
+            r = self.fresh()
+            return ls + ["let %s ← Rs.resOpt %s" % (r, self.atom(t))], r, ("opt", ty[1])
+        return FnTr4.ex0(self, e, want)
+
+    # -- `&s.to_lowercase() == "<ascii literal>"` (only this comparison shape; see RustPrelude5a.lean)
+    def ex_bin(self, e, want):
+        if e.op in ("==", "!="):
+            l, r = strip(e.l), strip(e.r)
+            if r.kind == "mcall" and r.name == "to_lowercase":
+                l, r = r, l
+            if l.kind == "mcall" and l.name == "to_lowercase" and not l.args:
+                if not (r.kind == "lit_other" and r.what == "str"):
+                    raise Unsupported("`.to_lowercase()` is limited to a comparison with a string literal")
+                lit = R2.rust_str_bytes(r.text)
+                if any(b >= 0x80 for b in lit) or any(0x41 <= b <= 0x5A for b in lit):
+                    raise Unsupported("`.to_lowercase()` compared with a literal that is not lower-case ASCII")
+                ls, t, ty = self.ex(l.recv)
+                if ty != STR:
+                    raise Unsupported("`.to_lowercase()` on %s" % tystr4(ty))
+                term = "(Rs.lowercaseEq %s %s)" % (self.atom(t), R2.lean_str_lit(lit))
+                return ls, term if e.op == "==" else "(!%s)" % term, ("bool",)
+        return FnTr4.ex_bin(self, e, want)
+
+    # -- `if let Ok(p) = <Result value> { .. } else { .. }`
+    def ctl(self, e, mode, want):
+        if e.kind == "iflet" and e.pat.kind == "p_ctor" and e.pat.path == ["Ok"] and len(e.pat.args) == 1:
+            sc = e.scrut
+            while sc.kind == "paren":
+                sc = sc.e
+            e = N("iflet", pat=N("p_ctor", path=["Some"], args=e.pat.args), scrut=N("res_val_opt", e=sc), then=e.then, els=e.els)
+        return FnTr4.ctl(self, e, mode, want)
+
+    def tail(self, e):
+        if e is not None and e.kind == "path" and e.segs == ["text__"] and self.text_param and self.name in TEXT5A:
+            return ["Ctl.ret text__"]
+        e2 = self.desugar(e)
+        if e2 is not e:
+            return self.tail(e2)
+        return FnTr4.tail(self, e)
+
+    # -- constants of type `&str`
+    def ex_path(self, e, want):
+        if len(e.segs) == 1 and e.segs[0] in self.iter_params and self.own_param(e.segs[0]):
+            if self.for_header_ok != e.segs[0]:
+                raise Unsupported("the iterator parameter `%s` may only be consumed by one `for` loop" % e.segs[0])
+            self.for_header_ok = None
+            self.iter_used = getattr(self, "iter_used", set())
+            if e.segs[0] in self.iter_used and not self.peeking:
+                raise Unsupported("the iterator parameter `%s` is consumed twice" % e.segs[0])
+            if not self.peeking:
+                self.iter_used.add(e.segs[0])
+        if len(e.segs) == 1 and self.lookup(e.segs[0]) is None and e.segs[0] in self.w.consts and norm4(self.w.consts[e.segs[0]]) == STR:
+            return [], "(Rs.strLit C.%s)" % e.segs[0], STR
+        return FnTr4.ex_path(self, e, want)
+
+    # -- untyped `Vec::with_capacity(n)`: the element type is that of the first `push` (as rs2lean4 does for queues)
+    CONTAINER_NEW = dict(FnTr4.CONTAINER_NEW)
+    CONTAINER_NEW[("Vec", "with_capacity")] = "vec"
+
+    def ex_call(self, e, want):
+        f = e.f
+        if f.kind == "path":
+            segs, args = f.segs, e.args
+            last2 = segs[-2:] if len(segs) >= 2 else None
+            if len(segs) == 1 and self.lookup(segs[0]) == FN_BYTES_BOOL and len(args) == 1:
+                ls, t, ty = self.ex(args[0])
+                if not is_bytes(ty):
+                    raise Unsupported("closure argument of type %s" % tystr4(ty))
+                return ls, "(%s %s)" % (lname(segs[0]), self.atom(t)), ("bool",)
+            if segs == ["from_utf8"] and len(args) == 1 and self.lookup("from_utf8") is None and self.find_sig(None, "from_utf8") is None:
+                ls, t, ty = self.ex(args[0])
+                if not is_bytes(ty):
+                    raise Unsupported("from_utf8 of %s" % tystr4(ty))
+                return ls, "(Rs.strFromUtf8 %s)" % self.atom(t), ("res", STR)
+            if last2 in (["Vec", "with_capacity"], ["VecDeque", "with_capacity"]) and len(args) == 1:
+                kind = "vec" if last2[0] == "Vec" else "deque"
+                el = want[1] if (want is not None and want[0] == kind) else None
+                if el is not None and self.concrete(el) and (el[0] in ("tuple", "vec") and not (kind == "vec" and el == U8)):
+                    ls, t, _ = self.ex(args[0], ("int", "usize"))
+                    ls, r = self.call_res(ls, "Rs.vecWithCapacity %s %d %s" % (self.lt(el), size_align5(el, self.w)[0], self.atom(t)))
+                    return ls, r, (kind, el)
+        return FnTr4.ex_call(self, e, want)
+
+    def hole_found(self, holder_ty, arg, want_tuple=None):
+        ls, t, ty = self.ex(arg, None)
+        if ty is not None and ty[0] == "flex" and all(c[0] == "lit" for c in ty[1]):
+            raise FoundHole(holder_ty[1], ("flexlit",))
+        return FnTr4.hole_found(self, holder_ty, arg, want_tuple)
+
+    def tr_mutcall(self, e):
+        pl = self.place_of(e.recv)
+        ty, name, args = pl[2], e.name, e.args
+        if ty[0] == "vec" and ty[1][0] == "hole":
+            if name == "push" and len(args) == 1:
+                self.hole_found(ty[1], args[0])
+            if name == "extend_from_slice" and len(args) == 1:
+                raise FoundHole(ty[1][1], U8)
+        return FnTr4.tr_mutcall(self, e)
+
+    # -- `r.ok()` on a `Result` value
+    def ex_mcall(self, e, want):
+        name, args, recv = e.name, e.args, e.recv
+        while recv.kind == "paren":
+            recv = recv.e
+        if name == "parse" and not args:
+            fish = getattr(e, "fish", None)
+            prim = {("i64",): ("Rs.parseI64", ("int", "i64")), ("u64",): ("Rs.parseU64", ("int", "u64")),
+                    ("f64",): ("Rs.parseF64", ("f64",))}.get(tuple(fish or ()))
+            if prim is None:
+                raise Unsupported("only `.parse::<i64>()`, `::<u64>()`, `::<f64>()` are in the subset")
+            ls, t, ty = self.ex(recv)
+            if ty != STR:
+                raise Unsupported("`.parse()` on %s" % tystr4(ty))
+            return ls, "(%s %s)" % (prim[0], self.atom(t)), ("res", prim[1])
+        if name == "ok" and not args and recv.kind in ("call", "mcall"):
+            sig = self.callee_sig(recv)
+            if sig is not None and sig["ret"][0] == "res" and not sig.get("mut") and not sig.get("writer"):
+                ls, t, ty = self.ex(recv)
+                r = self.fresh()
+                return ls + ["let %s ← Rs.resOpt %s" % (r, self.atom(t))], r, ("opt", ty[1])
+        return FnTr4.ex_mcall(self, e, want)
+
+    # -- loops: an iterator parameter in a `for` header; a queue that grows inside its `while let` loop
+    def tr_loop(self, e):
+        if e.kind == "for":
+            it = e.iter
+            while it.kind in ("paren", "ref"):
+                it = it.e
+            if it.kind == "path" and len(it.segs) == 1 and it.segs[0] in self.iter_params:
+                self.for_header_ok = it.segs[0]
+        n_aux = len(self.aux_defs)
+        lines = FnTr4.tr_loop(self, e)
+        # a hoisted loop body that uses the function's `fuel` (it calls a fuel-taking function) takes it as a parameter
+        if len(self.aux_defs) > n_aux and self.group is None:
+            aux_def = self.aux_defs[-1]
+            m = re.match(r"def (\S+) ", aux_def[0])
+            if m and any(re.search(r"\bfuel\b", l) for l in aux_def[1:]) and "(fuel : Nat)" not in aux_def[0]:
+                aux = m.group(1)
+                aux_def[0] = aux_def[0].replace("def %s " % aux, "def %s (fuel : Nat) " % aux, 1)
+                hit = [i for i, l in enumerate(lines) if ("(%s " % aux) in l or ("(%s)" % aux) in l]
+                if len(hit) != 1:
+                    raise Unsupported("translator error: loop call site not found")
+                i = hit[0]
+                if ("(%s)" % aux) in lines[i]:
+                    lines[i] = lines[i].replace("(%s)" % aux, "(%s fuel)" % aux, 1)
+                else:
+                    lines[i] = lines[i].replace("(%s " % aux, "(%s fuel " % aux, 1)
+                self.uses_fuel = True
+        if e.kind == "whilelet":
+            sc = e.scrut
+            while sc.kind == "paren":
+                sc = sc.e
+            q = strip(sc.recv)
+            if q.kind == "path" and len(q.segs) == 1 and self.pushes_to(e.body, q.segs[0]):
+                # the queue grows in the loop: no bound can be read off the source, the function's `fuel` is the bound
+                old = "Rs.whileFuel ((Rs.len %s).toNat + 1)" % lname(q.segs[0])
+                hit = [i for i, l in enumerate(lines) if old in l]
+                if len(hit) != 1:
+                    raise Unsupported("translator error: `while let` call site not found")
+                if self.group is not None:
+                    raise Unsupported("a growing queue inside a recursive group")
+                self.uses_fuel = True
+                lines[hit[0]] = lines[hit[0]].replace(old, "Rs.whileFuel fuel", 1)
+        return lines
+
+    def pushes_to(self, node, q):
+        found = []
+
+        def walk(x):
+            if isinstance(x, (list, tuple)):
+                for y in x:
+                    walk(y)
+            elif isinstance(x, N):
+                if x.kind == "mcall" and x.name in ("push_back", "push_front", "extend", "append", "insert"):
+                    r = strip(x.recv)
+                    if r.kind == "path" and r.segs == [q]:
+                        found.append(x)
+                for kk, v in x.__dict__.items():
+                    if kk not in ("kind", "toks"):
+                        walk(v)
+        walk(node)
+        return bool(found)
+
+    # -- `match <Result value> { Ok(p) => .., Err(_) => .. }` on a primitive; `match (enum, integer) { .. }`
+    def ctl_match(self, e, mode, want, M):
+        scrut = e.scrut
+        while scrut.kind == "paren":
+            scrut = scrut.e
+        if scrut.kind in ("call", "mcall") and len(e.arms) == 2 and all(a.guard is None for a in e.arms) \
+                and self.callee_sig(scrut) is None:
+            kinds = []
+            for a in e.arms:
+                q = a.pat
+                if q.kind == "p_ctor" and q.path == ["Ok"] and len(q.args) == 1:
+                    kinds.append("ok")
+                elif q.kind == "p_ctor" and q.path == ["Err"] and len(q.args) == 1 and q.args[0].kind == "p_wild":
+                    kinds.append("err")
+                else:
+                    kinds.append(None)
+            if sorted(k or "" for k in kinds) == ["err", "ok"]:
+                arms = []
+                for a, k in zip(e.arms, kinds):
+                    pat = N("p_ctor", path=["Some"], args=a.pat.args) if k == "ok" else N("p_path", path=["None"])
+                    arms.append(N("arm", pat=pat, guard=None, body=a.body))
+                return FnTr4.ctl_match(self, N("match", scrut=N("res_val_opt", e=scrut), arms=arms), mode, want, M)
+        if scrut.kind == "tuple" and len(scrut.items) == 2:
+            t0 = self.peek_type(scrut.items[0])
+            t1 = self.peek_type(scrut.items[1])
+            t1 = self.default_flex(t1) if (t1 is not None and t1[0] == "flex") else t1
+            if t0 is not None and t0[0] == "named" and t0[1] in self.w.enums and t1 is not None and is_int(t1):
+                return self.match_enum_int(e, scrut, t0, t1, mode, want, M)
+        return FnTr4.ctl_match(self, e, mode, want, M)
+
+    def match_enum_int(self, e, scrut, t0, t1, mode, want, M):
+        """`match (x, n) { (A(p) | B(p), CONST) => a, (C(q), CONST) => b, (_, _) => d }`: the enum patterns of the arms
+        name pairwise different variants and the last arm is a catch-all: a `match` on `x` whose arms test `n` and
+        otherwise continue with the catch-all body"""
+        if not e.arms or any(a.guard is not None for a in e.arms):
+            raise Unsupported("guard on a match arm of (enum, integer)")
+        last = e.arms[-1].pat
+        if not (last.kind == "p_wild" or (last.kind == "p_tuple" and len(last.items) == 2 and all(x.kind == "p_wild" for x in last.items))):
+            raise Unsupported("match on (enum, integer) without a final catch-all arm")
+        fallback = e.arms[-1].body
+        sl0, s0, _ = self.ex(scrut.items[0], t0)
+        sl1, s1, _ = self.ex(scrut.items[1], t1)
+        tag = self.fresh()
+        pre = sl0 + sl1 + ["let %s := %s" % (tag, s1)]
+        variants = [vn for vn, _ in self.w.enums[t0[1]]]
+        seen = set()
+        branches = []
+        self.push()
+        try:
+            self.scopes[-1][tag] = t1                    # a generated name: visible to the conditions only
+            for a in e.arms[:-1]:
+                q = a.pat
+                if not (q.kind == "p_tuple" and len(q.items) == 2):
+                    raise Unsupported("pattern not in the subset for a match on (enum, integer)")
+                alts = q.items[0].alts if q.items[0].kind == "p_or" else [q.items[0]]
+                pats, binds = [], None
+                for alt in alts:
+                    if alt.kind not in ("p_ctor", "p_path") or len(alt.path) != 2:
+                        raise Unsupported("pattern not in the subset for a match on (enum, integer)")
+                    vn = alt.path[1]
+                    if vn in seen:
+                        raise Unsupported("two arms of a match on (enum, integer) name the same variant")
+                    seen.add(vn)
+                    p1, b1 = self.ctor_pattern(alt, t0)
+                    if binds is not None and b1 != binds:
+                        raise Unsupported("alternatives that bind different names")
+                    binds = b1
+                    pats.append(p1)
+                cond = self.int_pat_expr(q.items[1], tag, t1)
+                body = a.body if cond is None else N("if", cond=cond, then=self.body_as_block(a.body), els=self.body_as_block(fallback))
+                branches.append(dict(pat=" | ".join(pats), binds=binds or [], body=body))
+            if any(v not in seen for v in variants):
+                branches.append(dict(pat="_", binds=[], body=fallback))
+            return self.finish_ctl(("match", [s0]), pre, branches, mode, want, M)
+        finally:
+            self.pop()
+
+    def int_pat_expr(self, q, tag, ty):
+        """the test `tag matches q` as a Rust expression (None for `_`)"""
+        if q.kind == "p_wild":
+            return None
+        if q.kind == "p_or":
+            parts = [self.int_pat_expr(x, tag, ty) for x in q.alts]
+            if any(x is None for x in parts):
+                return None
+            out = parts[0]
+            for x in parts[1:]:
+                out = N("bin", op="||", l=out, r=x)
+            return out
+        if q.kind == "p_lit":
+            return N("bin", op="==", l=N("path", segs=[tag]), r=q.lit)
+        if q.kind == "p_path" and (len(q.path) > 1 or q.path[0] in self.w.consts):
+            return N("bin", op="==", l=N("path", segs=[tag]), r=N("path", segs=q.path))
+        raise Unsupported("integer pattern not in the subset for a match on (enum, integer)")
+
+    # -- whole function
+    def translate0(self):
+        p = self.body_parser
+        body = p.parse_block()
+        if p.peek().k != "eof":
+            raise Unsupported("tokens after the function body")
+        if self.name in TEXT5A:
+            body = self.split_text_branch(body)
+        self.scopes = []
+        self.push()
+        binders = []
+        for n, t in self.params:
+            self.bind(n, t)
+            binders.append("(%s : %s)" % (lname(n), self.lt(t)))
+        if self.ret[0] == "res" and self.ret[1][0] == "res":
+            raise Unsupported("nested Result")
+        if self.mutparams:
+            raise Unsupported("`&mut` parameters in a phase-5a function")
+        if self.name in TEXT5A:
+            self.scopes[-1]["text__"] = self.ret
+            self.texts.append(dict(pname="text__", leanty="Res %s" % self.lean_ret(), args=[n for n, _ in self.params]))
+        lines, _, _, _ = self.tr_block(body, "tail", None)
+        for t in self.texts:
+            binders.append("(%s : %s)" % (t["pname"], t["leanty"]))
+        out = []
+        for a in self.aux_defs:
+            out += a + [""]
+        if self.uses_fmt:
+            binders = ["(fmt__ : Nat → Bytes)"] + binders
+        if self.uses_fuel:
+            binders = ["(fuel : Nat)"] + binders
+        head = "def %s %s: Res %s := Ctl.run do" % (self.lean, "".join(x + " " for x in binders), self.lean_ret())
+        return out, [head] + ind(lines)
 
 
 # ----------------------------------------------------------------------------- driver
@@ -140,22 +784,37 @@ def phase4_world(repo):
 
 def translate_fn5(world, file, impl, trait, name, lean, it):
     """as rs2lean4.translate_fn4 with the phase-5a translator; -> (aux lines, def lines, translator)"""
-    def attempt(choice):
-        holes = {}
+    def attempt(choice, holes=None):
+        """-> list of results (several when the element type of a container is an unconstrained integer literal)"""
+        holes = dict(holes or {})
         for _ in range(16):
             try:
                 tr = FnTr5(world, file, impl, trait, name, it, lean, dict(choice), None, holes)
                 aux, lines = tr.translate()
-                return aux, lines, tr
+                return [(aux, lines, tr)]
             except FoundHole as h:
                 if h.site in holes:
                     raise Unsupported("the element type of a container could not be inferred")
+                if h.ty == ("flexlit",):
+                    res, errs = [], []
+                    for c in R2.INT_CANDIDATES:
+                        try:
+                            h2 = dict(holes)
+                            h2[h.site] = ("int", c)
+                            res += attempt(choice, h2)
+                        except NeedLitType:
+                            raise
+                        except Unsupported as u:
+                            errs.append(str(u))
+                    if not res:
+                        raise Unsupported("no integer type fits the elements of a container (%s)" % (errs[0] if errs else "?"))
+                    return res
                 holes[h.site] = h.ty
         raise Unsupported("the element type of a container could not be inferred")
 
     def solve(choice):
         try:
-            return [(dict(choice), attempt(choice))]
+            return [(dict(choice), r) for r in attempt(choice)]
         except NeedLitType as e:
             res, errs = [], []
             for c in R2.INT_CANDIDATES:
@@ -252,14 +911,16 @@ def generate(repo, prev_text):
 
 
 def emit_type5(world, file, kind, name):
-    raise Unsupported("not yet")
+    if kind == "enum":
+        return R3.emit_enum3(world, file, name)
+    raise Unsupported("declaration kind `%s`" % kind)
 
 
 def register_sig5(world, file, impl, trait, name, lean, tr):
     params = list(tr.params)
     world.sigs[(file, impl, name)] = dict(
         params=params, ret=tr.ret, lean=lean, writer=None, mut=list(tr.mutparams), name=name, group=None,
-        trait=trait, fuel=bool(tr.uses_fuel), holder=None)
+        trait=trait, fuel=bool(tr.uses_fuel), fmt=bool(tr.uses_fmt), holder=None, texts=[dict(t) for t in tr.texts])
     if impl is None:
         world.sigs_names.add(name)
 
